@@ -404,9 +404,16 @@ def authz_cases(run, insts, mode):
             toks.append({"auth": c["auth"], "blocks": blocks, "via": via})
             return len(toks) - 1
 
+        lim = c["az"].get("lim")
+
         def ops(name, t, extra=(), **addkw):
             a = len([l for l in labels if l.endswith(".new")])
-            for lab, op in [("new", {"op": "new", "t": t}), ("add", dict({"op": "add", "az": c["az"]}, **addkw)),
+            new = {"op": "new", "t": t}
+            if lim:
+                new.update(mf=lim["mf"], mi=lim["mi"])
+                # a limit error must not be "healed" by calling Authorize again on the same authorizer
+                extra = list(extra) + [("retry", {"op": "authorize"}), ("retryworld", {"op": "world"})]
+            for lab, op in [("new", new), ("add", dict({"op": "add", "az": c["az"]}, **addkw)),
                             ("auth", {"op": "authorize"}), ("world", {"op": "world"})] + list(extra):
                 script.append(dict(op, a=a))
                 labels.append(name + "." + lab)
@@ -437,9 +444,17 @@ def authz_judge(c, dc, o, mode):
     nb = len(c["blocks"])
     bad = []
     names = ["T"] + ["T+" + "+".join("B%d" % (j + 1) for j in range(k)) for k in range(1, nb + 1)]
-    vs = [ob["p%d.auth" % k].get("v") for k in range(nb + 1)]
+    def cls(v):
+        return "failed" if v in ("maxiter", "maxfacts", "timeout") else v
+    vs = [cls(ob["p%d.auth" % k].get("v")) for k in range(nb + 1)]
     for k in range(nb + 1):
         exp = {CLASSMAP[x] for x in c["vs"][k]}
+        if "p%d.retry" % k in ob:
+            v2 = cls(ob["p%d.retry" % k].get("v"))
+            if v2 not in exp:
+                bad.append("second Authorize(%s) on the same authorizer = %s (first: %s), specification says %s" % (names[k], v2, vs[k], sorted(exp)))
+            if k > 0 and v2 == "ok" and "ok" not in {CLASSMAP[x] for x in c["vs"][k - 1]}:
+                bad.append("attenuation widened on retry: second Authorize(%s) ok but %s is refused" % (names[k], names[k - 1]))
         if vs[k] not in exp:
             bad.append("Authorize(%s) = %s, specification says %s" % (names[k], vs[k], sorted(exp)))
         if k > 0 and vs[k] == "ok" and vs[k - 1] != "ok":
@@ -538,11 +553,12 @@ AUTHZ_ASSUME = ["Datalog fragment of the model: ground facts, range-restricted r
 def authz_cfgs(run, negs, quick=("AuthzMC_two",)):
     ONE = ("AuthzMC", "AuthzMC_quick", "L1 theorems on every one-later-block catalogue instance + export", {})
     TWO = ("AuthzMC", "AuthzMC_two", "L1 theorems on every two-later-blocks instance + export", {})
+    LIM = ("AuthzMC", "AuthzMC_lim", "L1 theorems on two-later-blocks instances under 4 run-limit configurations + export", {})
     if run.tier == "thorough":
-        cfgs = [("AuthzMC", "AuthzMC_thorough", "L1 theorems on every one-later-block instance (full authorizer catalogue) + export", {}), TWO,
+        cfgs = [("AuthzMC", "AuthzMC_thorough", "L1 theorems on every one-later-block instance (full authorizer catalogue) + export", {}), TWO, LIM,
                 ("AuthzMC", "AuthzMC_sample", "L1 theorems on random instances of the rich catalogue + export", {"seed": run.seed})]
     else:
-        cfgs = [c for c in (ONE, TWO) if c[1] in quick]
+        cfgs = [c for c in (ONE, TWO, LIM) if c[1] in quick]
     for n in negs:
         cfgs.append(("AuthzMC", "AuthzMC_neg_" + n, "negative model " + n, {"expect_violation": True}))
     return cfgs
@@ -567,7 +583,7 @@ def c04(run):
 def c02(run):
     run.rule = AUTHZ_RULE + " C02: Authorize(T+B) = ok implies Authorize(T) = ok, and both equal the specification (theorem Monotone)."
     run.assumptions = AUTHZ_ASSUME
-    authz_check(run, "C02", authz_cfgs(run, ["PolAfter"]))
+    authz_check(run, "C02", authz_cfgs(run, ["PolAfter"], quick=("AuthzMC_two", "AuthzMC_lim")))
     authz_l3(run, core.build_driver(run.work))
 
 
